@@ -19,7 +19,7 @@ def roundtrip(which):
     rng = np.random.default_rng(Int('seed', 0, 10 ** 6))
     io = get('prysm.io')
     H, W = int(rng.integers(1, 8)), int(rng.integers(1, 9))
-    style = str(rng.choice(['mixed', 'positive', 'negative', 'constant', 'tiny', 'large']))
+    style = str(rng.choice(['mixed', 'positive', 'negative', 'constant', 'tiny', 'large', 'huge']))
     z = rng.standard_normal((H, W)) * 50
     if style == 'positive':
         z = abs(z) + 1
@@ -31,6 +31,10 @@ def roundtrip(which):
         z = z * 1e-3
     elif style == 'large':
         z = z * 200
+    elif style == 'huge':
+        # millimetres to centimetres of departure, in nm; stays inside what both formats can hold (Zygo: int32 steps of
+        # lambda/32768, i.e. |z| below about 4e7 nm)
+        z = np.clip(z, -200, 200) * float(10 ** rng.uniform(3.5, 5))
     nanmask = rng.random((H, W)) < 0.25 if rng.random() < 0.7 else np.zeros((H, W), bool)
     if nanmask.all():
         nanmask[0, 0] = False
